@@ -147,6 +147,9 @@ func (r *R) view(ctx sdk.Context) (classes []classView, toks []tokView, classLin
 }
 
 // State renders the canonical module state (hx.Stater): the projection the observation lines carry.
+// GhostChance: now and then an operation is executed on a context that is thrown away (hx.Ghoster).
+func (r *R) GhostChance() (int, int) { return 1, 12 }
+
 func (r *R) State(ctx sdk.Context) string { return r.state(ctx) }
 
 // state renders the canonical observation line.
